@@ -87,9 +87,12 @@ func VerifC17_edwards25519_point_ops() {
 	s, err := NewScalar().SetCanonicalBytes(sb[:])
 	vAssume(err == nil)
 	base := NewGeneratorPoint()
-	// the precomputed tables are built once, before the object is shared (sync.Once in the package)
-	_ = new(Point).ScalarBaseMult(s)
-	_ = new(Point).VarTimeDoubleScalarBaseMult(s, base, s)
+	// the precomputed tables are built on first use: either before the calls run concurrently, or
+	// (cold) by the concurrent calls themselves, which is only safe under the package's sync.Once
+	if !vBool("cold_tables") {
+		_ = new(Point).ScalarBaseMult(s)
+		_ = new(Point).VarTimeDoubleScalarBaseMult(s, base, s)
+	}
 	op := vSplit(vInt("op", 0, 2), 0, 2)
 	vConcurrently(func() {
 		switch op {
